@@ -46,6 +46,35 @@ RISKY = {
 }
 
 
+def classify_value(og, op):
+    """arithmetic form of a value stored into a balance; ('param', i) if it is parameter i as is"""
+    form = 'assign'
+    oo = og.of_operand(op)
+    for o in oo:
+        r = o.root
+        if r[0] == 'call':
+            nm = r[1].split('::')[-1]
+            if nm in ('checked_add', 'checked_sub'):
+                form = 'checked'
+            elif nm == 'saturating_add':
+                form = 'saturating-add'
+            elif nm == 'saturating_sub':
+                form = 'saturating-sub'
+        elif r[0] == 'const' and str(r[2]).endswith('::ZERO'):
+            form = 'zero'
+    # value chosen between an already checked result and a balance read (self transfer)
+    forms = set()
+    for o in oo:
+        r = o.root
+        if r[0] == 'call' and r[1].split('::')[-1] in ('checked_add', 'checked_sub'):
+            forms.add('checked')
+    if forms == {'checked'}:
+        form = 'checked'
+    if form == 'assign' and oo and all(o.root[0] == 'param' and not o.path for o in oo) and len({o.root[1] for o in oo}) == 1:
+        return ('param', oo[0].root[1])
+    return form
+
+
 def balance_write_forms(fx, f):
     """list of (form, block) for every write to `.info.balance` in f"""
     og = Origins(f, fx)
@@ -64,28 +93,7 @@ def balance_write_forms(fx, f):
             # a store into a balance: classify the stored value
             form = 'assign'
             if s.rv.rv == 'use':
-                for o in og.of_operand(s.rv.ops[0]):
-                    r = o.root
-                    if r[0] == 'call':
-                        nm = r[1].split('::')[-1]
-                        if nm in ('checked_add', 'checked_sub'):
-                            form = 'checked'
-                        elif nm == 'saturating_add':
-                            form = 'saturating-add'
-                        elif nm == 'saturating_sub':
-                            form = 'saturating-sub'
-                    elif r[0] == 'const' and str(r[2]).endswith('::ZERO'):
-                        form = 'zero'
-                    elif r[0] == 'multi':
-                        pass
-                # value chosen between an already checked result and a balance read (self transfer)
-                forms = set()
-                for o in og.of_operand(s.rv.ops[0]):
-                    r = o.root
-                    if r[0] == 'call' and r[1].split('::')[-1] in ('checked_add', 'checked_sub'):
-                        forms.add('checked')
-                if forms == {'checked'}:
-                    form = 'checked'
+                form = classify_value(og, s.rv.ops[0])
             out.append((form, b.i))
         t = b.term
         if t.kind == 'call' and (t.callee or '').endswith(('AddAssign::add_assign', 'SubAssign::sub_assign')) and t.args:
@@ -121,6 +129,36 @@ def run(ctx, rep):
         forms = balance_write_forms(fx, f)
         if forms:
             seen[f.parent or nq] = (f, forms)
+    # a write moved into a new private helper is a write of the helper's callers: the value's form is
+    # taken from the argument at each call site
+    from symx import KNOWN_PRIVATE
+    for nq in sorted(seen):
+        g, forms = seen[nq]
+        if nq in EXPECTED or nq in KNOWN_PRIVATE or not str(g.d.get('vis', '')).startswith('Restricted'):
+            continue
+        callers = [(cf, bi, t) for cf in fx.fns_all if cf.nq != nq for bi, t in cf.calls() if (t.target_fn or '') == nq]
+        if not callers:
+            continue
+        moved = True
+        extra = {}
+        for form, _bi in forms:
+            for cf, bi, t in callers:
+                cform = form
+                if isinstance(form, tuple):
+                    i = form[1] - 1
+                    cform = classify_value(Origins(cf, fx), t.args[i]) if i < len(t.args) else 'assign'
+                    if isinstance(cform, tuple):
+                        cform = 'assign'
+                extra.setdefault(cf.parent or cf.nq, []).append((cform, bi, cf))
+        if moved:
+            del seen[nq]
+            for cnq, items in extra.items():
+                cf = items[0][2]
+                base = seen.get(cnq, (cf, []))
+                seen[cnq] = (base[0], list(base[1]) + [(fm, bi) for fm, bi, _c in items])
+    for nq in list(seen):
+        f_, forms_ = seen[nq]
+        seen[nq] = (f_, [(('assign' if isinstance(fm, tuple) else fm), bi) for fm, bi in forms_])
     n_sites = 0
     for nq, (f, forms) in sorted(seen.items()):
         rep.fn(f)
